@@ -87,6 +87,8 @@ def cases(draw, closed_only, allow_verify):
     case["fail_partial"] = draw(st.sampled_from([False, False, False, True]))
     # placement by hard link instead of copy (cache type hardlink); applies to hashfile.transfer() only
     case["hardlink"] = draw(st.sampled_from([False, False, True]))
+    # the source objects carry a second hard link (the store served a hardlink transfer / checkout before)
+    case["src_linked"] = draw(st.sampled_from([False, False, True]))
     # deliberate shape: one requested directory loses a file on BOTH sides (its .dir object is withheld although
     # nothing failed while sending it) while the injected upload failures hit objects OUTSIDE that directory
     # (a loose file, another directory's file or .dir object) in the same transfer
@@ -223,6 +225,12 @@ def execute(case, ctx, d, monitor_closure=True, partial_on_generic=False):  # no
             _, obj, _ = ops.stage_transfer(src, t["path"])
             assert obj.hash_info.value == t["oid"], (obj.hash_info.value, t["oid"])
     o.src = src
+    if case.get("src_linked") and not staging_mode:
+        # every source object has a second name (an earlier hardlink transfer or hardlink checkout out of this
+        # store): link counts > 1 on protected objects, intact or - after the mutilation below - corrupt
+        os.makedirs(os.path.join(d, "srclinks"), exist_ok=True)
+        for oid_, pth_ in ref.walk_store(src_root)[0].items():
+            os.link(pth_, os.path.join(d, "srclinks", oid_))
 
     # ---- destination initial contents (closed) ----------------------------------------------
     from dvc_data.hashfile.db import get_index
@@ -505,6 +513,10 @@ def classes_of(case, o):
         cl.append("request-ids-carry-obj_name")
     if case.get("hardlink") and not o.via_push:
         cl.append("hardlink")
+    if case.get("src_linked") and case["src_kind"] in ("local", "generic"):
+        cl.append("source-objects-multiply-linked")
+        if o.corrupted:
+            cl.append("source-objects-multiply-linked+corrupt")
     if any(len(v) >= 2**20 for v in o.bytes.values()):
         cl.append("object-size-at-power-of-two(>=1MiB)")
     if getattr(o, "ref_groups", 0) >= 2:
